@@ -24,9 +24,12 @@ def register(w):
     def _(c):
         c.bounded_only = True
         c.param("event", Ev)
-        c.mod(A, "self._history", "self.context", "self.status", "self.output", "self.error", "self._action_depth")
+        c.mod(A, "self._history", "self.context", "self.status", "self.output", "self.error", "self._action_depth",
+              "self._event_queue", "self.g_accepted")
         c.req(f"legal({A})")
         c.ens(f"legal({A})", label="legal-after-event")
+        # P-only clause (ghost state): actions reach the queue only through send(), which appends while processing
+        c.ens("appended_only(old(self._event_queue), old(self.g_accepted), self._event_queue, self.g_accepted)", label="ghost:queue-append-only")
         c.may_raise("Exception", ensures=[f"legal({A})"])
 
     # ---- callees of the exit/entry routines -----------------------------------------------------------
